@@ -28,6 +28,9 @@ BUILT = {
  "C13": ("engine-a", "exploration", "stateful property testing, release-exactly-once predicates, drop counters, refs() model, unmount event counter",
          "Clone/alloc/to-owned/detach/drop in any order incl. original first, with a generated teardown order; per-drop state delta must equal exactly one dealloc of the buffer extent; Unmount event exactly once at the last holder.",
          "Unmount event at the top of Memory::unmount stands for the release of the backing store", "5/C13"),
+ "C14": ("buffer-engine", "exploration", "property testing of every buffer writer/reader against a reference encoder with whole-arena before/after snapshots and canary neighbours; round-trip relations",
+         "One generated buffer (fresh / recycled / aligned at odd cursor, borrowed / owned, capacity 0..96, any fill level) between canary neighbours; 1..5 generated calls over 12 integer types x 3 byte orders, LEB128, slices, set_len, align_to/put/put_aligned over the type table; out-of-buffer bytes compared byte for byte after every call; checked and unchecked builds.",
+         "put::<T> is only called at positions aligned for T (its documented precondition; ZSTs are kept aligned too)", "5/C14"),
  "C16": ("engine-a", "exploration", "property testing of constructors against Options::data_offset*, accessor table, and 3-way differential (Vec/anon/file, unified layout) with memory() hashes per step",
          "Constructor cases around the prefix size for reserved 0..=4096 on all backends and both flavours, accessor table and first-allocation offset; then one history in lock-step on Vec, anonymous-mmap and file arenas with byte-identical memory() after every step.",
          "Options::data_offset / data_offset_unify are the reference, as the statement says", "5/C16"),
@@ -73,6 +76,7 @@ def main():
             "add_only": True,
         },
         "engines": [
+            {"name": "buffer-engine", "path": "/verif/harness/src/props/c14.rs", "serves_properties": ["C14"], "kind_free_text": "micro-case property engine for BytesRefMut/BytesMut writers and readers"},
             {"name": "engine-a", "path": "/verif/harness/src/enga.rs", "serves_properties": [p for p in ALL if p in BUILT and BUILT[p][0] == "engine-a"], "kind_free_text": "single-threaded model-based history interpreter driven by proptest strategies; shadow map + free-list snapshot oracles; worker processes under a supervisor"},
         ],
         "checks": checks,
